@@ -218,7 +218,7 @@ func c03Setup() *c03Env {
 		e.got = proto.Clone(req)
 		return dynamicpb.NewMessage(out), nil
 	}}
-	e.mux, err = dynMux([]protoreflect.FileDescriptor{fd}, impl)
+	e.mux, err = dynMuxLater([]protoreflect.FileDescriptor{fd}, impl)
 	if err != nil {
 		panic(err)
 	}
